@@ -360,6 +360,20 @@ func (c *Ctx) delegatesGuard(fn *ssa.Function, pi int, depth int) bool {
 // errTestContinuation: for `x, err := call(...); if err != nil { return ... }` returns the continuation block;
 // also accepts `return call(...)` (tail delegation) by returning the call's own block.
 func (c *Ctx) errTestContinuation(call *ssa.Call) *ssa.BasicBlock {
+	// a helper whose only result is the error: `if err := check(…); err != nil { return … }`
+	if isErrorType(call.Type()) {
+		for _, r := range *call.Referrers() {
+			bo, ok := r.(*ssa.BinOp)
+			if !ok || bo.Op != token.NEQ || !isNilConst(bo.Y) {
+				continue
+			}
+			for _, r2 := range *bo.Referrers() {
+				if iff, ok := r2.(*ssa.If); ok {
+					return iff.Block().Succs[1]
+				}
+			}
+		}
+	}
 	for _, r := range *call.Referrers() {
 		ex, ok := r.(*ssa.Extract)
 		if !ok || !isErrorType(ex.Type()) {
